@@ -99,7 +99,12 @@ func selftestSensitivity(args []string) int {
 		}
 		for _, p := range todo {
 			cmd := exec.Command(self, "check", p, "--tier", "quick")
-			cmd.Env = append(os.Environ(), "VERIF_REPO="+scratch, "VERIF_DIR="+verifDir, "VERIF_EVIDENCE_DIR="+filepath.Join(scratch, ".evidence"), "VERIF_REPLAY_DIR="+filepath.Join(scratch, ".replays"))
+			env := os.Environ()
+			if p != meta.Property {
+				// cross-property runs only look for false alarms: a lighter budget is enough
+				env = append(env, "VERIF_RT_RUNS=60000", "VERIF_C12_RUNS=2400", "VERIF_C19_RUNS=1600", "VERIF_C19_ENUM_LIMIT=160")
+			}
+			cmd.Env = append(env, "VERIF_REPO="+scratch, "VERIF_DIR="+verifDir, "VERIF_EVIDENCE_DIR="+filepath.Join(scratch, ".evidence"), "VERIF_REPLAY_DIR="+filepath.Join(scratch, ".replays"))
 			cmd.Dir = verifDir
 			t0 := time.Now()
 			out, _ := cmd.CombinedOutput()
